@@ -67,7 +67,7 @@ def plan(tier):
         shards.append((fx, k, "fault" if fx == "summary" else "fault_doc", "micro", None))
         shards.append((fx, k, "then_fail", "small", None))
   else:
-    for fx in ("basic", "types", "twoway", "summary", "trigger", "views", "lookup", "cycles"):
+    for fx in ("basic", "types", "twoway", "summary", "trigger", "trigger2", "cascade", "views", "lookup", "cycles"):
       for k in F.ALL_KINDS:
         shards.append((fx, k, "fault", "small", 600.0))
         shards.append((fx, k, "then_fail", "med", None))
